@@ -190,7 +190,23 @@ def fam_errflow(ctx):
     return {"must_report": ["ST.errflow|persist_swallow_bad", "ST.errflow|persist_discard_bad"], "must_not_report": ["ST.errflow|persist_propagate_ok"]}
 
 
-FAMILIES = {"bounds": fam_bounds, "errflow": fam_errflow, "fold": fam_fold, "readloop": fam_readloop, "lock": fam_lock, "gate": fam_gate, "publish": fam_publish, "taint": fam_taint, "panic": fam_panic, "loop": fam_loop, "slice": fam_slice}
+def fam_recursion(ctx):
+    from . import c02
+    ids = {body(ctx, i).id: i for i in ("rec_unbounded_bad", "rec_param_ok", "rec_field_ok")}
+    cl = {b.id for b in ctx.prog.bodies.values() if b.krate == "verif_selftest"}
+    seen = {}
+    for comp, bounded in c02.recursive_cycles(ctx.prog, cl, prefixes=("verif_selftest",)):
+        for m in comp:
+            if m in ids:
+                seen[ids[m]] = bounded
+    for i in ("rec_unbounded_bad", "rec_param_ok", "rec_field_ok"):
+        if i not in seen:
+            raise RuntimeError("selftest: recursion witness %s not found as a cycle" % i)
+        (ctx.ok if seen[i] else ctx.bad)("ST.recursion", [i], "depth counter compared with a limit" if seen[i] else "no depth counter", body(ctx, i).loc())
+    return {"must_report": ["ST.recursion|rec_unbounded_bad"], "must_not_report": ["ST.recursion|rec_param_ok", "ST.recursion|rec_field_ok"]}
+
+
+FAMILIES = {"recursion": fam_recursion, "bounds": fam_bounds, "errflow": fam_errflow, "fold": fam_fold, "readloop": fam_readloop, "lock": fam_lock, "gate": fam_gate, "publish": fam_publish, "taint": fam_taint, "panic": fam_panic, "loop": fam_loop, "slice": fam_slice}
 
 
 def for_families(names):
